@@ -1,0 +1,21 @@
+//go:build verif
+
+package mint
+
+import (
+	"net/http"
+
+	"github.com/elnosh/gonuts/mint/storage"
+)
+
+// VerifWrapDB replaces the mint's storage by wrap(current storage).
+// Only compiled with the `verif` build tag; used by external runtime monitors
+// to observe / schedule / fault the mint's storage calls.
+func (m *Mint) VerifWrapDB(wrap func(storage.MintDB) storage.MintDB) {
+	m.db = wrap(m.db)
+}
+
+// VerifHandler exposes the HTTP router so requests can be served in-process.
+func (ms *MintServer) VerifHandler() http.Handler {
+	return ms.httpServer.Handler
+}
